@@ -264,7 +264,7 @@ impl Drop for Gate {
 }
 
 #[cfg(feature = "tracing")]
-fn emit_logs(idx: usize, n: u8) {
+fn emit_logs(idx: usize, n: u16) {
     for _ in 0..n {
         let id = with_rs(|rs| {
             if !rs.emit_logs {
@@ -282,7 +282,7 @@ fn emit_logs(idx: usize, n: u8) {
 }
 
 #[cfg(not(feature = "tracing"))]
-fn emit_logs(_: usize, _: u8) {}
+fn emit_logs(_: usize, _: u16) {}
 
 #[cfg(feature = "tracing")]
 fn defer_logs(idx: usize, n: u8) {
@@ -301,7 +301,7 @@ pub fn fire_deferred() -> Option<usize> {
     #[cfg(feature = "tracing")]
     {
         let entered = d.span.enter();
-        emit_logs(d.owner, d.n);
+        emit_logs(d.owner, u16::from(d.n));
         drop(entered);
     }
     Some(d.owner)
@@ -337,7 +337,9 @@ pub struct TW {
 impl World for TW {
     type Error = String;
 
-    async fn new() -> Result<Self, String> {
+    // A plain fn returning a future (as a hand-written World may be): the prologue runs at call time.
+    #[allow(clippy::manual_async_fn)]
+    fn new() -> impl Future<Output = Result<Self, String>> {
         let (idx, _) = cb_enter(CbKind::WorldNew, "W".into(), None, None, None, String::new());
         let (wb, gates) = with_rs(|rs| {
             let i = rs.world_calls;
@@ -349,6 +351,12 @@ impl World for TW {
             };
             (wb, rs.world_gates)
         });
+        if let WorldBehav::EagerPanic(kind) = wb {
+            let token = new_token();
+            cb_exit(idx, CbOutcome::Panic(kind, token));
+            throw(kind, token)
+        }
+        async move {
         for _ in 0..gates {
             gate(idx).await;
         }
@@ -373,6 +381,8 @@ impl World for TW {
                 cb_exit(idx, CbOutcome::Panic(kind, token));
                 throw(kind, token)
             }
+            WorldBehav::EagerPanic(_) => unreachable!("handled in the prologue"),
+        }
         }
     }
 }
